@@ -109,7 +109,7 @@ def _safe_timezone(
         # pytz
         elif hasattr(obj, "localize"):
             obj = obj.zone  # type: ignore[attr-defined]
-        elif obj.tzname(None) == "UTC":
+        elif obj.tzname(dt) == "UTC":
             return UTC
         else:
             offset = obj.utcoffset(dt)
